@@ -79,7 +79,9 @@ def c02_cases(rng, n):
         npts = rng.choice([2, 3, 4, 7, 10, 33, 100, 257, rng.randint(2, 400)])
         dur = npts / SR
         yield {"SR": SR, "npts": npts,
-               "sine": [rng.uniform(0, SR / 2), rng.uniform(-10, 10), rng.uniform(-10, 10), rng.uniform(-7, 7)],
+               # the ends of the frequency range (0 and Nyquist) are inside the quantifier
+               "sine": [rng.choice([0, 0.0, SR / 2, rng.uniform(0, SR / 2), rng.uniform(0, SR / 2), rng.uniform(0, SR / 2), rng.uniform(0, SR / 2)]),
+                        rng.uniform(-10, 10), rng.uniform(-10, 10), rng.uniform(-7, 7)],
                "ramp": [rng.uniform(-10, 10), rng.uniform(-10, 10)],
                "gauss": [rng.uniform(-10, 10), dur * rng.uniform(0.05, 0.5), dur * rng.uniform(-0.3, 0.3), rng.uniform(-10, 10)]}
 
